@@ -218,6 +218,13 @@ func (g *Gen) cond(d int) *R {
 // side of a projection that collects selectors binding tighter than stop.
 func (g *Gen) rhs(d int, stop int) *R {
 	e := cur()
+	if d > 0 && rng.Intn(8) == 0 { // a multi-select right after the projection: null elements must be dropped
+		if rng.Intn(2) == 0 {
+			e = sub(e, mlist(g.chain(0)))
+		} else {
+			e = sub(e, mhash(KV{"k", g.chain(0)}))
+		}
+	}
 	n := rng.Intn(4)
 	if d <= 0 {
 		n = rng.Intn(2)
